@@ -294,9 +294,9 @@ func (r *runner) shrink(c Case, kind string) Case {
 		return r.fails(cand, kind)
 	}
 	// 1. drop operations (keep the first op: it usually configures the instance)
-	for changed := true; changed && len(c.Ops) > 1; {
+	for changed := true; changed && len(c.Ops) > 1 && budget > 0; {
 		changed = false
-		for i := len(c.Ops) - 1; i >= 1; i-- {
+		for i := len(c.Ops) - 1; i >= 1 && budget > 0; i-- {
 			cand := Case{Tag: c.Tag, Ops: append(append([]Op{}, c.Ops[:i]...), c.Ops[i+1:]...)}
 			if try(cand) {
 				c = cand
@@ -308,8 +308,8 @@ func (r *runner) shrink(c Case, kind string) Case {
 	for oi := range c.Ops {
 		for bi := range c.Ops[oi].Bytes {
 			b := c.Ops[oi].Bytes[bi]
-			for chunk := len(b) / 2; chunk >= 1; chunk /= 2 {
-				for start := 0; start+chunk <= len(b); {
+			for chunk := len(b) / 2; chunk >= 1 && budget > 0; chunk /= 2 {
+				for start := 0; start+chunk <= len(b) && budget > 0; {
 					nb := append(append([]byte{}, b[:start]...), b[start+chunk:]...)
 					cand := cloneCase(c)
 					cand.Ops[oi].Bytes[bi] = nb
